@@ -7,9 +7,15 @@ Members == {"isEleShort", "isEleFull", "isElement"}
 \* quick: one non-element name, one element, the boundary masses around 0, C and between C and N
 QKnown == {"C", "N", "6"}
 QUnknown == {"CH3", "999"}
+QFull == {"CARBON"}
+TFull == {"CARBON", "LEAD", "HYDROGEN"}
 QCalls == {C(m, "CH3", 0) : m \in MissLookups \cup Members}
           \cup {C("getEleName", "999", 0), C("getEleName", "6", 0), C("getMass", "C", 0), C("getEleFull", "C", 0),
-                C("getCovRadBohr", "C", 0), C("getCovRadBadUnit", "C", 0)}
+                C("getCovRadBohr", "C", 0), C("getCovRadBadUnit", "C", 0),
+                \* the predicates and the full-name table on KNOWN names: lazily filled tables must not depend on
+                \* which call came first
+                C("isEleShort", "C", 0), C("isElement", "C", 0), C("isEleFull", "CARBON", 0),
+                C("getEleShort", "CARBON", 0), C("isElement", "CARBON", 0)}
           \cup {C("getEleShortClosestInMass", "zero", 0), C("getEleShortClosestInMass", "zero", 1),
                 C("getEleShortClosestInMass", "C", 1), C("getEleShortClosestInMass", "C", 3),
                 C("getEleShortClosestInMass", "mid", 0),
@@ -20,6 +26,7 @@ TUnknown == {"CH3", "Xx", "c", "999", "0"}
 TNames == {"C", "H", "Pb", "CH3", "Xx", "c"}
 TCalls == {C(m, n, 0) : m \in MissLookups \cup Members, n \in TNames}
           \cup {C("getEleName", n, 0) : n \in {"6", "82", "999", "0"}}
+          \cup {C(m, n, 0) : m \in {"isEleFull", "getEleShort", "isElement", "isEleShort"}, n \in TFull}
           \cup {C(m, n, 0) : m \in {"getCovRadAng", "getCovRadBohr", "getCovRadNm", "getCovRadBadUnit"}, n \in {"C", "H", "Pb"}}
           \cup {C(m, b, k) : m \in MassCalls, b \in {"zero", "C", "H", "Pb"}, k \in {-3, -2, -1, 0, 1, 2, 3}}
           \cup {C(m, "mid", 0) : m \in MassCalls}
